@@ -65,9 +65,10 @@ class FakeVCS:
         return None
 
 
-def write_hook(path, which, fakedir, succeed=True):
-    """a hook script that appends an order marker and its BUMPVER_* environment to the fake VCS log"""
+def write_hook(path, which, fakedir, succeed=True, unstartable=None):
+    """a hook script that appends an order marker and its BUMPVER_* environment to the fake VCS log;
+    unstartable: "noexec" (no executable bit) or "badinterp" (its #! interpreter does not exist) - the file exists but cannot be run"""
     with open(path, "w") as f:
-        f.write("#!/bin/sh\nprintf '%%s\\0' 4 HOOK %s \"$BUMPVER_OLD_VERSION\" \"$BUMPVER_NEW_VERSION\" >> '%s/log'\nexit %d\n"
-                % (which, fakedir, 0 if succeed else 1))
-    os.chmod(path, 0o755)
+        f.write("#!%s\nprintf '%%s\\0' 4 HOOK %s \"$BUMPVER_OLD_VERSION\" \"$BUMPVER_NEW_VERSION\" >> '%s/log'\nexit %d\n"
+                % ("/nonexistent/interpreter" if unstartable == "badinterp" else "/bin/sh", which, fakedir, 0 if succeed else 1))
+    os.chmod(path, 0o644 if unstartable == "noexec" else 0o755)
